@@ -425,6 +425,7 @@ class IKRun:
             elif op == "FK":
                 arm.FK(np.array(st["theta"], float), bool(st.get("protect", False)))
             elif op == "move":
+                info["ee0"] = np.array(arm.getEEPos().gTM(), float).copy()
                 arm.move(tm(list(st["base"])), bool(st.get("stationary", False)))
             elif op == "home":
                 cur = arm.getEEPos()
@@ -477,6 +478,25 @@ class IKRun:
                         raise Violation("K-fail-coherent", "move(stationary=True): the internal IK left the arm incoherent: reported "
                                         "tool pose differs from FK(stored joints) by %.3e" % dev,
                                         {"op": "move", "path": "constrained", "check": True})
+                    # the internal solve either succeeded (the tool is where it was, within the tolerances) or failed with
+                    # restarts exhausted (the arm is reset to the zero vector clamped into the limits): nothing else
+                    S__, M__ = self.geom()
+                    stored = np.array(arm._theta, float).reshape(-1)
+                    kept = False
+                    for T in fk_variants(S__, M__, stored, _load()["fmr"].FKinSpace):
+                        a_, l_ = pose_errors(T, info["ee0"])
+                        if a_ <= float(arm.rot_tolerance) * (1 + 1e-6) + ANG_BLIND and min(l_) <= float(arm.pos_tolerance) * (1 + 1e-6) + 1e-9:
+                            kept = True
+                            break
+                    reset = np.minimum(np.maximum(np.zeros(len(stored)), np.array(arm.joint_mins, float)), np.array(arm.joint_maxs, float))
+                    if kept:
+                        self.probes["move_stationary_kept_tool_pose"] += 1
+                    elif ang_diff(stored, reset) <= 1e-9:
+                        self.probes["move_stationary_reset_arm"] += 1
+                    else:
+                        raise Violation("K-state", "move(stationary=True): afterwards the tool is neither where it was (off by %.3e rad / "
+                                        "%.3e) nor is the arm in the reset configuration: the internal IK claimed a pose it had not reached" % (
+                                            a_, min(l_)), {"op": "move", "path": "constrained", "check": True})
         try:
             th_ = np.asarray(arm._theta, float).reshape(-1)
             inl = bool(np.all(th_ >= np.asarray(arm.joint_mins, float) - 1e-12) and np.all(th_ <= np.asarray(arm.joint_maxs, float) + 1e-12))
